@@ -97,7 +97,7 @@ theorem mul_adj_right (a b y : NDArray R) (ha : a.WF) (hb : b.WF) (h : mulForwar
 /-- sum over None / an int / a tuple of dims (negative entries allowed), keepdims or not -/
 theorem sum_adj (a y : NDArray R) (ax : Axes) (keep : Bool) (ha : a.WF) (h : sumForward a ax keep = some y) :
     IsAdjoint (R := R) a.shape y.shape (fun v => sumForward v ax keep) (fun g => sumBackward g a.shape ax keep) := by
-  cases hn : ax.norm a.shape.length with
+  cases hn : ax.normRed a.shape.length with
   | none => simp [sumForward, Np.sum, hn] at h
   | some axes =>
     have hy : y.shape = reduceShape a.shape axes keep := by
@@ -109,7 +109,7 @@ theorem sum_adj (a y : NDArray R) (ax : Axes) (keep : Bool) (ha : a.WF) (h : sum
       · by_cases e : ax = .all
         · right
           subst e
-          simp only [Axes.norm, Option.some.injEq] at hn
+          simp only [normRed_all, Option.some.injEq] at hn
           rw [← hn]
           exact reduceShape_all_nokeep _
         · left; simp [e]
@@ -119,6 +119,65 @@ theorem sum_adj (a y : NDArray R) (ax : Axes) (keep : Bool) (ha : a.WF) (h : sum
       simp [sumForward, Np.sum, hvs, hn]
     · intro g _ _
       simp [sumBackward, hn]
+
+/-! ### sum / max / min of a 0-d operand along `dim = 0` or `dim = -1`
+
+NumPy's ufunc reductions accept exactly these two integer axes on a 0-d array and reduce nothing
+(`Axes.normRed`); the backward kernels return the upstream gradient unchanged. -/
+
+/-- a well-formed 0-d array is one value -/
+theorem wf_zero_dim {α : Type} (x : NDArray α) (hx : x.WF) (hs : x.shape = []) : ∃ v, x = ⟨[], [v]⟩ := by
+  obtain ⟨sh, data⟩ := x
+  simp only at hs
+  subst hs
+  unfold WF at hx
+  simp only [size_nil] at hx
+  match data, hx with
+  | [v], _ => exact ⟨v, rfl⟩
+
+set_option linter.unusedSimpArgs false in
+/-- **sum of a 0-d operand along dim 0 / −1 is the identity** (`keepdims` or not: the result is 0-d) -/
+theorem sum_zero_dim (x : NDArray R) (hx : x.WF) (hs : x.shape = []) (d : Int) (hd : d = 0 ∨ d = -1)
+    (keep : Bool) : sumForward x (.one d) keep = some x := by
+  obtain ⟨v, rfl⟩ := wf_zero_dim x hx hs
+  unfold sumForward Np.sum
+  simp only [List.length_nil, normRed_zero_dim hd, Option.bind_eq_bind, Option.bind_some, Option.pure_def]
+  cases keep <;> simp [scatterAdd, reduceShape, reduceIdx, dropAxes, setAxes, ofFn, allIdx, NDArray.get, ravel]
+
+set_option linter.unusedSimpArgs false in
+/-- … and its backward is the identity on the (0-d) upstream gradient -/
+theorem sum_zero_dim_backward (g : NDArray R) (hg : g.WF) (hs : g.shape = []) (d : Int) (hd : d = 0 ∨ d = -1)
+    (keep : Bool) : sumBackward g [] (.one d) keep = some g := by
+  obtain ⟨v, rfl⟩ := wf_zero_dim g hg hs
+  unfold sumBackward
+  simp only [List.length_nil, normRed_zero_dim hd, Option.bind_eq_bind, Option.bind_some, Option.pure_def]
+  cases keep <;> simp [unreduce, gather, reduceIdx, dropAxes, setAxes, ofFn, allIdx, NDArray.get, ravel]
+
+set_option linter.unusedSimpArgs false in
+/-- **max / min of a 0-d operand along dim 0 / −1 is the identity**, for either comparison -/
+theorem ext_zero_dim (better : R → R → Bool) (x : NDArray R) (hx : x.WF) (hs : x.shape = []) (d : Int)
+    (hd : d = 0 ∨ d = -1) (keep : Bool) : extForward better x (some d) keep = some x := by
+  obtain ⟨v, rfl⟩ := wf_zero_dim x hx hs
+  unfold extForward
+  simp only [List.length_nil, normRed_zero_dim hd, Option.bind_eq_bind, Option.bind_some, Option.pure_def]
+  cases keep <;>
+    simp [reduceShape, reduceIdx, dropAxes, setAxes, ofFn, allIdx, NDArray.get, ravel, argExt, Shape.size]
+
+set_option linter.unusedSimpArgs false in
+/-- … and the backward mask is 1: the upstream gradient is returned unchanged -/
+theorem ext_zero_dim_backward (better : R → R → Bool) (g x : NDArray R) (hg : g.WF) (hgs : g.shape = [])
+    (hs : x.shape = []) (d : Int) (hd : d = 0 ∨ d = -1) (keep : Bool) :
+    extBackward better g x (some d) keep = some g := by
+  obtain ⟨v, rfl⟩ := wf_zero_dim g hg hgs
+  obtain ⟨sh, data⟩ := x
+  simp only at hs
+  subst hs
+  unfold extBackward
+  simp only [List.length_nil, normRed_zero_dim hd, Option.bind_eq_bind, Option.bind_some, Option.pure_def]
+  cases keep <;>
+    simp [reduceShape, reduceIdx, dropAxes, setAxes, ofFn, allIdx, NDArray.get, ravel, argExt, Shape.size,
+      reshapeTo, gather, unravel]
+
 
 /-- matmul with batch broadcasting, first operand -/
 theorem matmul_adj_left (a b y : NDArray R) (ha : a.WF) (hb : b.WF) (h : matmulForward a b = some y) :
@@ -344,7 +403,7 @@ theorem mean_adj (a y : NDArray K) (ax : Axes) (keep : Bool) (ha : a.WF) (h : me
           Option.pure_def, div_eq_mul_inv]
         cases Np.sum v ax keep <;> rfl
       · intro g _ _
-        simp only [meanBackward, sumBackward, hn, Option.bind_eq_bind, Option.bind_some,
+        simp only [meanBackward, sumBackward, hn, normRed_of_norm hn, Option.bind_eq_bind, Option.bind_some,
           Option.pure_def, div_eq_mul_inv, Option.map_some]
 
 end Field
